@@ -538,8 +538,10 @@ impl InnerInMemory {
             .records
             .range(&start_range_key..&end_range_key)
             // remember CNAME can be the only record at a particular label
-            .any(|(key, _)| {
-                !is_nsec(record.record_type(), key.record_type)
+            .any(|(key, rrset)| {
+                // an RRset left empty by deletes of its RRs does not occupy the label
+                !rrset.is_empty()
+                    && !is_nsec(record.record_type(), key.record_type)
                     && label_does_not_allow_multiple(
                         record.record_type(),
                         key.record_type,
